@@ -207,11 +207,11 @@ PROPERTIES['C04'] = {
 PROPERTIES['C09'] = {
     'level': 'other',
     'configs': two,
-    'rules': [scoped(olc('LOCK-1'), _olc_scan_roots, SCAN), scoped(olc('LOCK-7'), _olc_scan_roots, SCAN), scoped(olc('LOCK-8'), _olc_scan_roots, SCAN), scoped(olc('LOCK-9'), _olc_scan_roots, SCAN),
+    'rules': [scoped(olc('LOCK-1'), _olc_scan_roots, SCAN), scoped(olc('LOCK-7'), _olc_scan_roots, SCAN), scoped(olc('LOCK-8'), _olc_scan_roots, SCAN), scoped(olc('LOCK-9'), _olc_scan_roots, SCAN), scoped(olc('ROLE'), _olc_scan_roots, SCAN),
               scoped(R(seq.iter1), _olc_scan_roots, SCAN), scoped(R(iterrules.reseek), _olc_scan_roots, SCAN), scoped(R(iterrules.iter3), _olc_scan_roots, SCAN), scoped(R(iterrules.iter4), _olc_scan_roots, SCAN), scoped(R(iterrules.iter5), _olc_scan_roots, SCAN), scoped(R(point.lock11), _olc_scan_roots, SCAN)],
     'technique': 'static analysis: relational typestate dataflow over the OLC iterator functions (section validation, stack-entry/version pairing, lock coupling), must-pass-through rules for the re-seek path and the fall-off branch of seek',
     'explanation': 'Structural conditions of concurrent-scan correctness on the OLC iterator functions: LOCK-1 (snapshots validated before use / before a non-restart return), LOCK-7b (no validation on an ended, empty or moved-from section), '
-                   'LOCK-8 (every stack entry is pushed with the version of the read section opened on the node it describes, so a later rehydrate/check validates the right lock word), LOCK-9 (hand-over-hand: the child section is opened before the parent section is given up), ITER-1 (the sibling computed is the sibling visited, also on the re-seek path), '
+                   'LOCK-8 (every stack entry is pushed with the version of the read section opened on the node it describes, so a later rehydrate/check validates the right lock word), LOCK-9 (hand-over-hand: the child section is opened before the parent section is given up), ROLE (the traversals receive the section their node argument was read under), ITER-1 (the sibling computed is the sibling visited, also on the re-seek path), '
                    'RESEEK-1 (when a step finds its stack invalidated it re-seeks to the key it stood on, captured before anything is unwound, in the direction of the step, and steps past it exactly when the re-seek found that key again), ITER-3 (when seek falls off an inner node the first stack operation is the sibling step on the parent entry, never a pop), ITER-4 / ITER-5 (direction table and net stack effect of the OLC iterator functions), LOCK-11 (a failed lock step or a failed push leads to the restart result only). Verdicts are scoped to the callee closure of the olc_db iterator and scan functions (the sequential iterator is C02).',
     'decides': 'snapshot validation, stack-entry/version pairing and sibling-step consistency in try_first/last/next/prior/seek and the traversals',
     'does_not_decide': 'ordering / completeness of delivered keys under interleavings',
@@ -229,14 +229,15 @@ PROPERTIES['C14'] = {
 PROPERTIES['C16'] = {
     'level': 'other',
     'configs': two,
-    'rules': [R(lock7a), R(ptr.ptr4), R(cfgdiff.assert_range)],
+    'rules': [R(lock7a), olc('LOCK-7'), olc('ROLE'), R(ptr.ptr4), R(cfgdiff.assert_range), R(lockword.lw6)],
     'technique': 'static analysis: configuration differencing (statement-signature alignment of every function across single-axis flips of the build configuration with an effect classifier), API-surface differencing, typestate dataflow for read-section overwrite',
     'multi_rules': [R(cfgdiff.run_matrix), R(simd_axis)],
     'exhaustive': lambda tier: tier == 'thorough',
     'explanation': 'CD-1: for every single-axis flip of the build configuration (statistics on/off, assertions on/off, spin variant; quick: the baseline against its flips, thorough: all 16 configurations against theirs, exhaustively) the statement signatures of every function instantiated in both configurations are aligned in source order; every statement that exists on one side only must be part of a side-effect-free assertion, '
                    'touch only state that exists only in that configuration (set difference of the field / static / function tables), be a pure read, or be control flow listed in the exception table (one symbol + reason each) - a return, throw, shared-state write or mutating call that exists in one configuration only is a violation. CD-2: the public API of the index classes, encoder/decoder and pointer wrappers is identical across configurations except statistics getters. '
                    'SIMD axis: the vectorised searches (SLOT-1 first null slot of the I48 pointer array - SSE4.2 packs vs AVX2 packs + cross-lane permutes; FIND-1 / ORD-1 child lookup and insert position of I4 / I16) are evaluated lane-wise against ONE specification in the AVX2 and in the SSE4.2 configuration; meeting it in both is what makes the builds agree. '
-                   'ASSERT-1 (assertion-enabled configurations): a debug-only counter compared with a narrower stored count cannot outgrow it (loop trip count capped by the node capacity <= 2^w - 1; a full I256 has 256 children and an 8-bit count). '
+                   'LW-6 (assertion-enabled configurations): a read section clears its lock pointer on exactly the paths on which the lock-level call gave its read_lock_count unit back (check: on failure; try_read_unlock: always - conditions read off the lock code itself), so the unit is never given back twice. ASSERT-1 (assertion-enabled configurations): a debug-only counter compared with a narrower stored count cannot outgrow it (loop trip count capped by the node capacity <= 2^w - 1; a full I256 has 256 children and an 8-bit count). '
+                   'LOCK-7b / ROLE: a read section is not used after it has been ended or handed to a callee that consumes it, and helpers receive the section their node argument was read under - in release builds a consumed section still carries its lock pointer and the slip goes unnoticed, in assertion-enabled builds the pointer is null and the next use crashes: behaviour would depend on the configuration. '
                    'LOCK-7a: in no function of the OLC code is a read section that may still be open overwritten by assignment. An overwritten open section loses its unit of the debug-build read_lock_count, which optimistic_lock::check_on_dealloc '
                    'asserts to be zero when the node is freed - the one internal assertion that legal usage (scan, then remove) could trip.',
     'decides': 'optional features (statistics, debug accounting) never write core state and core control flow never depends on them; assertion conditions are pure; balance of the debug read-section accounting on every path (typestate); the three rejection assertions exist',
@@ -306,12 +307,12 @@ PROPERTIES['C05'] = {
 PROPERTIES['C06'] = {
     'level': 'other',
     'configs': stats_axis,
-    'rules': [R(lambda cfg: qsbr.q_rotation(cfg, parts=('3',))), R(qsbr.q_cas), R(lambda cfg: qsbr.q_orphans(cfg, parts=('7', '8'))), R(qsbr.q_tail_link), R(qsbr.q_register_epoch)],
+    'rules': [R(lambda cfg: qsbr.q_rotation(cfg, parts=('3',))), R(qsbr.q_cas), R(lambda cfg: qsbr.q_orphans(cfg, parts=('7', '8'))), R(qsbr.q_tail_link), R(qsbr.q_register_epoch), R(qsbr.q_tagging)],
     'technique': 'static analysis: linearity (exactly-one-sink) dataflow on request containers, CAS-loop shape rule (published value recomputed from the expected value on every retry), type-level non-copyability check',
     'explanation': 'Exactly-once as linearity of the request containers: Q-3 no request list is overwritten while it may hold requests, the new requests are consumed into the current list; '
                    'Q-6 every CAS on the packed state word publishes helper(expected) recomputed after each failed attempt (no lost thread-count update), register increments and unregister decrements the count, paused follows (un)registration, '
                    'a push onto an orphan list links the node to the very head the CAS expects on every retry; Q-7 every orphan list taken by the epoch changer reaches exactly one sink (freed / published / appended on CAS failure), '
-                   'add_to_orphan_list returns only on empty input or CAS success, every exit of unregister_thread passes through orphan_pending_requests, which hands each private list to its own orphan list once; Q-8 requests are not copyable, deferred_requests neither copyable nor movable; Q-13 a store into the next link of an orphan-list node links a private node being pushed or the tail (entered from a test that found the link null) - never a node that may have successors; Q-14 a registering thread that could only bump the thread count returns the NEW epoch (guarded by a test that a freshly read epoch differs), so the per-epoch thread bookkeeping never underflows.',
+                   'add_to_orphan_list returns only on empty input or CAS success, every exit of unregister_thread passes through orphan_pending_requests, which hands each private list to its own orphan list once; Q-8 requests are not copyable, deferred_requests neither copyable nor movable; Q-11 a new request joins the current-interval list only under last_seen_epoch == fresh epoch and is handed to advance_last_seen_epoch (which drops its argument when the epoch was already seen) only under last_seen_epoch != fresh epoch - the same field the callee tests; Q-13 a store into the next link of an orphan-list node links a private node being pushed or the tail (entered from a test that found the link null) - never a node that may have successors; Q-14 a registering thread that could only bump the thread count returns the NEW epoch (guarded by a test that a freshly read epoch differs), so the per-epoch thread bookkeeping never underflows.',
     'decides': 'no request lost or duplicated on any path of rotation, orphaning and orphan hand-over; thread-count bookkeeping',
     'does_not_decide': 'the bound "freed no later than the third quiescent round" and getter equalities at quiescent points (schedule-dependent)',
 }
